@@ -6,6 +6,7 @@ import (
 	"os"
 	"path/filepath"
 	"strings"
+	"sync"
 
 	"verifharness/client"
 	"verifharness/core"
@@ -129,7 +130,7 @@ func c18MakeStoreSpec(r *core.Run, si int, spec *c18Spec) (*c18Store, error) {
 }
 
 func runC18(r *core.Run) {
-	r.Rule("wallet stores filled with harness-minted proofs of arbitrary denominations (random multisets, active + inactive keysets, input_fee_ppk of the active keyset in {0,100,250,500,1000,2000}); from a fresh copy of store and mint per case Wallet.Send is called for every amount 1..min(balance,200) and larger random amounts, in both fee modes; a success must hand out proofs worth exactly amount (or amount + the mint's fee for exactly those proofs, computed from each proof's keyset), UNSPENT at the mint, pairwise distinct, no longer spendable in the wallet, with the balance reduced by the value sent plus the swap fees seen on the wire; a refusal is a violation when amount + fee(all proofs held) + feeBound(sent) <= balance; non-trivial = distinct (store, amount, fee mode) sends evaluated")
+	r.Rule("wallet stores filled with harness-minted proofs of arbitrary denominations (random multisets, active + inactive keysets, input_fee_ppk of the active keyset in {0,100,250,500,1000,2000}); from a fresh copy of store and mint per case Wallet.Send is called for every amount 1..min(balance,200) and larger random amounts, in both fee modes; a success must hand out proofs worth exactly amount (or amount + the mint's fee for exactly those proofs, computed from each proof's keyset), UNSPENT at the mint, pairwise distinct, no longer spendable in the wallet, with the balance reduced by the value sent plus the swap fees seen on the wire; every seventh amount is also sent as the first operation after a rotation (to each fee rate in turn) that the loaded wallet has not seen; a refusal is a violation when amount + fee(all proofs held) + feeBound(sent) <= balance; non-trivial = distinct (store, amount, fee mode) sends evaluated")
 	r.Assume("feeBound(sent) = fee of popcount(amount)+popcount(fee)+1 proofs of the active keyset, so the completeness premise is conservative")
 	nstores := pick(r, 6, 60)
 	core.Parallel(nstores, 8, func(si int) {
@@ -168,10 +169,23 @@ func runC18(r *core.Run) {
 					continue
 				}
 				c18Case(r, st, t, sink, amount, fees, sig)
+				if amount%7 == 3 {
+					// the same send as the first operation after a rotation the wallet has not seen
+					rot := int(c18Fees[int(amount/7)%len(c18Fees)])
+					if rsig := fmt.Sprintf("%s/after-unseen-rotation-to-%d", sig, rot); r.Want(rsig) {
+						c18CaseRot(r, st, t, sink, amount, fees, rsig, rot)
+					}
+				}
 			}
 		}
 		r.Sample("store", map[string]any{"store": tag, "proofs": len(st.proofs), "balance": st.balance, "fees_ppk": st.feeOf, "active": st.active})
 	})
+	// beyond the stated quantifier: sends issued at the same time from one wallet (the wallet
+	// serialises them with its own lock) must still hand out pairwise distinct proofs and take
+	// every one of them out of the balance
+	if tag := "concurrent-sends"; r.Want(tag) {
+		c18Concurrent(r, tag)
+	}
 	// directed: the store of the listed finding (greedy selection refuses a send close to the
 	// balance of a store mixing keysets), so that it is looked at whatever the seed
 	if tag := "store-directed-1"; r.Want(tag) {
@@ -194,6 +208,12 @@ func runC18(r *core.Run) {
 }
 
 func c18Case(r *core.Run, st *c18Store, t *inproc.Transport, sink *inproc.Sink, amount uint64, fees bool, sig string) {
+	c18CaseRot(r, st, t, sink, amount, fees, sig, -1)
+}
+
+// c18CaseRot: with rotateTo >= 0 the mint rotates to a keyset with that fee after the wallet was
+// loaded, so that the send is the first operation of a wallet that has not seen the rotation yet.
+func c18CaseRot(r *core.Run, st *c18Store, t *inproc.Transport, sink *inproc.Sink, amount uint64, fees bool, sig string, rotateTo int) {
 	dir := core.TempDir("c18x")
 	defer os.RemoveAll(dir)
 	if err := core.CopyDir(st.dir, dir); err != nil {
@@ -217,6 +237,20 @@ func c18Case(r *core.Run, st *c18Store, t *inproc.Transport, sink *inproc.Sink, 
 		return
 	}
 	defer w.Shutdown()
+	if rotateTo >= 0 {
+		if err := env.Rotate(uint(rotateTo)); err != nil {
+			r.Inconclusive("rotate: " + err.Error())
+			return
+		}
+		env.RefreshKeysets()
+		st2 := *st
+		st2.feeOf = map[string]uint{}
+		for id, ks := range env.Keysets {
+			st2.feeOf[id] = ks.Fee
+		}
+		st2.active = env.Active().Id
+		st = &st2
+	}
 	balBefore := w.GetBalance()
 	var sent cashu.Proofs
 	var serr error
@@ -244,6 +278,9 @@ func c18Case(r *core.Run, st *c18Store, t *inproc.Transport, sink *inproc.Sink, 
 	}
 	wit := map[string]any{"store_proofs": amountsOf(st.proofs), "of_which_inactive_keyset": inactiveAmts, "active_keyset": st.active, "fees_ppk": st.feeOf, "amount": amount, "include_fees": fees, "error": fmt.Sprint(serr), "sent": amountsOf(sent)}
 	ppkKey := fmt.Sprintf("ppk=%d", st.feeOf[st.active])
+	if serr != nil && rotateTo >= 0 {
+		return // the completeness premise is stated for a wallet that knows the mint's keysets
+	}
 	if serr != nil {
 		// completeness
 		n := bits.OnesCount64(amount)
@@ -321,4 +358,82 @@ func amountsOf(ps cashu.Proofs) []uint64 {
 		out[i] = p.Amount
 	}
 	return out
+}
+
+func c18Concurrent(r *core.Run, tag string) {
+	var denoms []uint64
+	for i := 0; i < 12; i++ {
+		denoms = append(denoms, 1, 2, 4, 8)
+	}
+	st, err := c18MakeStoreSpec(r, -2, &c18Spec{feeOld: 0, feeNew: 0, old: []uint64{1, 2}, act: denoms})
+	if err != nil {
+		r.Violate("setup", err.Error(), tag, nil)
+		return
+	}
+	defer os.RemoveAll(st.dir)
+	t := inproc.Install()
+	rounds := pick(r, 12, 60)
+	for round := 0; round < rounds && r.Violations() < 10; round++ {
+		sig := fmt.Sprintf("%s/round%d", tag, round)
+		func() {
+			dir := core.TempDir("c18c")
+			defer os.RemoveAll(dir)
+			if err := core.CopyDir(st.dir, dir); err != nil {
+				r.Inconclusive("copy: " + err.Error())
+				return
+			}
+			env, err := menv.New(lnmodel.NewWorld(1), "m0", filepath.Join(dir, "mint"), menv.Opts{})
+			if err != nil {
+				r.Inconclusive("load mint: " + err.Error())
+				return
+			}
+			defer env.Close()
+			t.Register(st.host, env.Handler())
+			defer t.Unregister(st.host)
+			w, err := wallet.LoadWallet(wallet.Config{WalletPath: filepath.Join(dir, "wallet"), CurrentMintURL: st.url})
+			if err != nil {
+				r.Inconclusive("load wallet: " + err.Error())
+				return
+			}
+			defer w.Shutdown()
+			balBefore := w.GetBalance()
+			const n = 8
+			amounts := []uint64{4, 4, 1, 8, 2, 4, 3, 8}
+			results := make([]cashu.Proofs, n)
+			errs := make([]error, n)
+			start := make(chan struct{})
+			var wg sync.WaitGroup
+			for i := 0; i < n; i++ {
+				wg.Add(1)
+				go func(i int) {
+					defer wg.Done()
+					<-start
+					core.Guard(func() { results[i], errs[i] = w.Send(amounts[i], st.url, false) })
+				}(i)
+			}
+			close(start)
+			wg.Wait()
+			r.Eval(sig, true)
+			seen := map[string]int{}
+			var total uint64
+			for i, ps := range results {
+				if errs[i] != nil {
+					continue
+				}
+				if ps.Amount() != amounts[i] {
+					r.Violate("concurrent-sends:not-exact", fmt.Sprintf("Send(%d) handed out %d", amounts[i], ps.Amount()), sig, nil)
+				}
+				total += ps.Amount()
+				for _, p := range ps {
+					seen[p.Secret]++
+					if seen[p.Secret] == 2 {
+						r.Violate("concurrent-sends:proof-handed-out-twice", fmt.Sprintf("a proof of %d was handed out by two sends issued at the same time", p.Amount), sig, nil)
+					}
+				}
+			}
+			if bal := w.GetBalance(); bal+total != balBefore {
+				r.Violate("concurrent-sends:balance-inconsistent", fmt.Sprintf("balance %d -> %d after concurrent sends handed out %d", balBefore, bal, total), sig, nil)
+			}
+		}()
+	}
 }
